@@ -322,6 +322,38 @@ example : String.ofList (numberToString 0xC340000000000000) = "-9007199254740992
 example : String.ofList (numberToString 0x433FFFFFFFFFFFFF) = "9007199254740991" := by decide +kernel
 example : String.ofList (numberToString 0x8000000000000000) = "0" := by decide +kernel
 
+/-! ### 17 significant digits read back as the same double (reduction) -/
+
+/-- ★ "17 digits suffice" (2^53 < 10^16): if a decimal `N` approximates `X = T·D` (T < 2^53 grid steps of size D) with
+    relative error at most 10^−16/2 — which a correctly rounded 17-significant-digit rendering guarantees, since its
+    absolute error is ≤ 10^(k−16)/2 with 10^k ≤ X — then `N` is strictly within half a grid step of `X`. -/
+theorem seventeen_digits_suffice (N D T : Nat) (hD : 0 < D) (hT : T < 2 ^ 53)
+    (hclose_hi : 2 * 10 ^ 16 * N ≤ (2 * 10 ^ 16 + 1) * (T * D))
+    (hclose_lo : (2 * 10 ^ 16 - 1) * (T * D) ≤ 2 * 10 ^ 16 * N) :
+    2 * T * D < 2 * N + D ∧ 2 * N < 2 * T * D + D := by
+  have p53 : (2 : Nat) ^ 53 = 9007199254740992 := by norm_num
+  have p16 : (10 : Nat) ^ 16 = 10000000000000000 := by norm_num
+  rw [p53] at hT; rw [p16] at hclose_hi hclose_lo
+  have hTD : T * D < 9007199254740992 * D := Nat.mul_lt_mul_of_pos_right hT hD
+  constructor <;> nlinarith
+
+/-- `print17_roundtrip_partial`: the READING half of the round trip, for both branches of the reader: whenever the exact
+    value `N/D` of the text (in the units of `extract_faithful_*`) is a 17-digit-accurate approximation of a double that
+    sits at grid point `T < 2^53` of the reader's grid, the significand handed to `ldexp` is exactly `T` (and the final
+    `ldexp` is exact or faithful by the `ldexp_*` theorems).
+    NOT proved (gap): (i) that `fmtG 17` / libc `%.17g` yields such an approximation (correct rounding of the printing side:
+    absolute error ≤ 10^(k−16)/2 with 10^k ≤ x); (ii) that the double lies on the reader's final grid with T < 2^53 — for a
+    power of two approached from below this uses |d − x| < 2^(E−2), which the same bound gives because x = 2^52·2^E there;
+    (iii) the scanner plumbing from the printed characters to (mant, 10, ex).  All three are exercised on every run
+    (`p17`: every binade boundary ±1, subnormals, DBL_MAX, −0, random patterns; 0 failures) and the reader's nearest-ness
+    is additionally checked against exact arithmetic on every generated literal in the normal range. -/
+theorem print17_roundtrip_partial (t N D T : Nat) (hD : 0 < D) (hT : T < 2 ^ 53)
+    (hread : NearestUpN t N D)
+    (hclose_hi : 2 * 10 ^ 16 * N ≤ (2 * 10 ^ 16 + 1) * (T * D))
+    (hclose_lo : (2 * 10 ^ 16 - 1) * (T * D) ≤ 2 * 10 ^ 16 * N) : t = T := by
+  obtain ⟨h1, h2⟩ := seventeen_digits_suffice N D T hD hT hclose_hi hclose_lo
+  exact hread.unique hD h1 h2
+
 /-! ### non-vacuity -/
 
 /-- the hypotheses are satisfiable by non-trivial literals: "16r1f.8&-3", "-1.25e-7", "9223372036854775808" -/
